@@ -1577,7 +1577,7 @@ theorem rlsRCtor_eq (P : RlsP ℝ) (dl : ℝ) : Gen.rlsRCtor (P.n : Int) P.mu dl
   unfold Gen.rlsRCtor rlsObjR rlsInit
   simp only [Gen.arrNew, Int.toNat_natCast, ← Nat.cast_mul, Gen.zeroR, fn_ofInt, Int.cast_zero, zero_real]
   congr 1
-  have hf : (Gen.rlsRCtor_loop1 (P.n : Int) dl : Array ℝ → Nat → Array ℝ) =
+  have hf : (Gen.rlsRCtor_loop1 dl (P.n : Int) : Array ℝ → Nat → Array ℝ) =
       fun acc i => acc.setIfInBounds (i * P.n + i) dl := by
     funext acc i
     simp only [Gen.rlsRCtor_loop1]
@@ -1628,7 +1628,7 @@ theorem rlsCCtor_eq (P : RlsP ℝ) (dl : ℝ) : Gen.rlsCCtor (P.n : Int) P.mu dl
   unfold Gen.rlsCCtor rlsObjC rlsInit
   simp only [Gen.arrNew, Int.toNat_natCast, ← Nat.cast_mul, zeroC_eq]
   congr 1
-  have hf : (Gen.rlsCCtor_loop1 (P.n : Int) dl : Array (Cx ℝ) → Nat → Array (Cx ℝ)) =
+  have hf : (Gen.rlsCCtor_loop1 dl (P.n : Int) : Array (Cx ℝ) → Nat → Array (Cx ℝ)) =
       fun acc i => acc.setIfInBounds (i * P.n + i) (Mixed.ofReal dl) := by
     funext acc i
     simp only [Gen.rlsCCtor_loop1]
